@@ -237,7 +237,22 @@ def items_refused_clauses(view_of):
     on_yield, _ = iter_clauses(view_of, True)
 
     def post(S, o):
-        return [('I-items:refused-loudly', z3.BoolVal(o.kind == 'raise'))]
+        # the refusal must be the library's own signal (_ItemsNotDefined, turned into ItemsNotDefined by items()):
+        # from_dataset / new(ds) / cache(lazy=False) fall back to a key-less snapshot on exactly that exception
+        out = [('I-items:refused-loudly', z3.BoolVal(o.kind == 'raise'))]
+        if o.kind == 'raise' and '_ItemsNotDefined' in S.eng.hier.bases:
+            sig = exc_is(o.exc, S.eng.hier, '_ItemsNotDefined')
+            v = None
+            try:
+                v = view_of(S)
+            except Exception:      # noqa
+                v = None
+            if v is not None:
+                # ... unless an example that comes before the refusal point fails with its own exception
+                own = z3.And(S.out_n < v.n(), v.raises(S.out_n), o.exc.t == v.exc(S.out_n))
+                sig = z3.Or(sig, own)
+            out.append(('I-items:refused-with-the-ItemsNotDefined-signal', sig))
+        return out
     return on_yield, post
 
 
